@@ -51,7 +51,7 @@ func (s seqRunner) IntSet(cfg tk.Config[int, struct{}])       { runHistory(s.c, 
 func (s seqRunner) StringSet(cfg tk.Config[string, struct{}]) { runHistory(s.c, cfg) }
 
 func sequential(r *vkit.Report) {
-	n := r.Scale(5000, 60000)
+	n := r.Scale(5000, 36000)
 	r.Cases("hist", n, runtime.GOMAXPROCS(0), func(c *vkit.Case) {
 		tk.ForConfig(c.Index%tk.NConfigs, false, seqRunner{c})
 	})
